@@ -31,6 +31,14 @@ Theorem C11_skipped_rederivable :
   only_allowed_erased extracted_schema = true /\ codecs_known extracted_schema = true.
 Proof. exact (conj erased_agree codecs_agree). Qed.
 
+(* model = specification for the struct body: what the generated encoder does (fields sorted by
+   index, the running max test, gaps filled with null, fields beyond the max left out) is the
+   slot array of the specification, whenever the indices are unique *)
+Theorem C11_derive_writes_slot_array : forall fs encs nils,
+  nodup_nat (idxs fs) = true -> length encs = length fs -> length nils = length fs ->
+  enc_rec fs encs nils = enc_rec_spec fs encs nils.
+Proof. exact enc_rec_is_spec. Qed.
+
 (* a loaded store is well-typed and at rest: a second save/load generation is the identity *)
 Theorem C11_reload_at_rest : forall (S : schema), wf_schema S = true ->
   forall t v, ty_wf S t = true -> ht S t v = true ->
